@@ -813,6 +813,22 @@ func (eng *Engine) initReflect() {
 		}
 		return e.tc.Resize(e.rget(v).(*Term), 64, false)
 	})
+	vm("OverflowInt", func(e *Exec, v *RVal, args []Value) Value {
+		if !isIntKind(rkind(v.t)) {
+			e.reflectPanic("reflect: call of reflect.Value.OverflowInt on " + rkind(v.t).String() + " Value")
+		}
+		x := args[0].(*Term)
+		back := e.tc.Resize(e.tc.Resize(x, widthOf(v.t), true), 64, true)
+		return e.tc.BNot(e.tc.Eq(x, back))
+	})
+	vm("OverflowUint", func(e *Exec, v *RVal, args []Value) Value {
+		if !isUintKind(rkind(v.t)) {
+			e.reflectPanic("reflect: call of reflect.Value.OverflowUint on " + rkind(v.t).String() + " Value")
+		}
+		x := args[0].(*Term)
+		back := e.tc.Resize(e.tc.Resize(x, widthOf(v.t), false), 64, false)
+		return e.tc.BNot(e.tc.Eq(x, back))
+	})
 	vm("Float", func(e *Exec, v *RVal, _ []Value) Value {
 		switch rkind(v.t) {
 		case reflect.Float64:
